@@ -13,7 +13,7 @@ META = {
     "level": "translation_validation",
     "engine": "E1 artifact-level SMT: recomposition of the returned supergates (list order; and super-circuit form with every sg_* box replaced by its supergate) proved equal to the original outputs for all valuations; cover / induced wiring / topological order / disjoint fan-in are set comparisons on the same runs (reported as concrete side assertions)",
     "hashseeds": {"quick": [0, 1], "thorough": [0, 1, 2, 3, 4, 5, 6, 7]},
-    "shards": {"quick": 8, "thorough": 2},
+    "shards": {"quick": 8, "thorough": 4},
     "bounds": {
         "quick": "textbook example (Seth/Agrawal), F-shape, F-unit K<=5, c17, 30 random DAGs (<=12 gates); super-circuit form for every single-output restriction of each member",
         "thorough": "same + 300 random DAGs + 40 with 24 gates, 8 hash seeds",
